@@ -3,11 +3,15 @@
 import json, os
 HERE = os.path.dirname(os.path.dirname(os.path.abspath(__file__)))
 rows = []
+voids = []
 for mid in sorted(os.listdir(os.path.join(HERE, "seeded"))):
     mp = os.path.join(HERE, "seeded", mid, "meta.json")
     if not os.path.isfile(mp):
         continue
     m = json.load(open(mp))
+    if m.get("void"):
+        voids.append((mid, m["void"]))
+        continue
     for prop, c in sorted(m.get("checks", {}).items()):
         rows.append((mid, prop, c.get("result", "?"), c.get("when", ""), c.get("note", "")))
 caught = sum(1 for r in rows if r[2].startswith("CAUGHT"))
@@ -17,4 +21,8 @@ with open(os.path.join(HERE, "seeded", "RESULTS.md"), "w") as f:
             % (caught, len(rows)))
     for r in rows:
         f.write("| %s | %s | %s | %s | %s |\n" % r)
+    if voids:
+        f.write("\nNot counted (no longer break the property on the repaired tree):\n\n")
+        for mid, why in voids:
+            f.write("* %s: %s\n" % (mid, why))
 print("%d of %d caught" % (caught, len(rows)))
